@@ -40,6 +40,10 @@ type Stage struct {
 	NShard   int            // number of worker processes
 	BudgetS  float64        // soft deadline per worker
 	Optional bool           // thorough-only extras
+	Kind        string     // "" = plain sharded stage, "bfs" = level-synchronous BFS
+	Depth       int        // bfs depth
+	Seeds       [][]string // bfs seed sequences
+	MaxFrontier int
 }
 
 type Plan struct {
@@ -288,6 +292,18 @@ func execute(plan *Plan, tier string, seed int64, replayFile, only string) int {
 	boundDone := map[string]int{}
 	for si, st := range plan.Stages {
 		if only != "" && !strings.Contains(st.Scenario, only) {
+			continue
+		}
+		if st.Kind == "bfs" {
+			stage, ints := runBFS(plan, st, si, tier, seed)
+			internal = append(internal, ints...)
+			desc := fmt.Sprintf("%s bfs depth<=%d params=%v: states=%d transitions=%d capped=%v %s", st.Scenario, st.Depth, st.Params, stage.States, stage.Transitions, stage.Capped, stage.CapReason)
+			stageNotes = append(stageNotes, desc)
+			fmt.Println("stage:", desc)
+			total.Merge(stage)
+			if len(stage.Violations) > 0 {
+				break
+			}
 			continue
 		}
 		n := st.NShard
